@@ -480,6 +480,7 @@ func (g *xgen) applyEdit(doc *etree.Document, rs *ResponseSpec, w *World, kind i
 			ext.AddChild(gen)
 			root.InsertChildAt(idx, f)
 			root.AddChild(ext)
+			markRelocated(rs, gen)
 			return "xsw-genuine-into-extensions"
 		}
 	case 7: // XSW: genuine nested inside forged (Advice)
@@ -491,6 +492,7 @@ func (g *xgen) applyEdit(doc *etree.Document, rs *ResponseSpec, w *World, kind i
 			adv := f.CreateElement(st.a("Advice"))
 			adv.AddChild(gen)
 			root.InsertChildAt(idx, f)
+			markRelocated(rs, gen)
 			return "xsw-genuine-inside-forged-advice"
 		}
 	case 8: // XSW: forged carries a copy of the genuine signature, genuine inside ds:Object
@@ -511,6 +513,7 @@ func (g *xgen) applyEdit(doc *etree.Document, rs *ResponseSpec, w *World, kind i
 				obj.AddChild(gen)
 				f.InsertChildAt(1, sc)
 				root.InsertChildAt(idx, f)
+				markRelocated(rs, gen)
 				return "xsw-signature-object"
 			}
 		}
@@ -582,6 +585,9 @@ func (g *xgen) applyEdit(doc *etree.Document, rs *ResponseSpec, w *World, kind i
 		ext := outer.CreateElement(st.p("Extensions"))
 		doc.SetRoot(outer)
 		ext.AddChild(inner)
+		for _, a := range rs.Assertions {
+			a.Relocated = true
+		}
 		return "wrap-response-in-response"
 	case 15: // tamper a Response attribute (covered only by a Response signature)
 		root.CreateAttr("InResponseTo", "_attacker_chosen")
@@ -599,16 +605,50 @@ func (g *xgen) applyEdit(doc *etree.Document, rs *ResponseSpec, w *World, kind i
 			if s := findFirst(root, "Status"); s != nil {
 				root.RemoveChild(as[0])
 				s.AddChild(as[0])
-				f, _ := g.forgedAssertion(st, "")
-				root.AddChild(f)
+				markRelocated(rs, as[0])
+				if r.Intn(2) == 0 {
+					f, _ := g.forgedAssertion(st, "")
+					root.AddChild(f)
+				}
 				return "relocate-genuine-under-status"
 			}
 		}
 	case 19: // second Issuer / duplicated root attributes (C20 shapes)
 		root.CreateElement(st.a("Issuer")).SetText("https://other-idp.example.com")
 		return "second-issuer-appended"
+	case 20: // every genuine assertion ends up below a NESTED protocol Response (no forged sibling): must still be rejected
+		inner := root
+		outerSpec := g.okResponseSpec(0)
+		outerSpec.Style = st
+		outer := buildMessage(outerSpec)
+		doc.SetRoot(outer)
+		if r.Intn(2) == 0 {
+			outer.CreateElement(st.p("Extensions")).AddChild(inner)
+		} else {
+			outer.AddChild(inner)
+		}
+		for _, a := range rs.Assertions {
+			a.Relocated = true
+		}
+		return "nest-response-in-clean-response"
+	case 21: // sender-supplied trust flag
+		target := root
+		if len(as) > 0 && r.Intn(2) == 0 {
+			target = as[0]
+		}
+		target.CreateAttr("SignatureValidated", "true")
+		return "signaturevalidated-attribute"
 	}
 	return ""
+}
+
+func markRelocated(rs *ResponseSpec, el *etree.Element) {
+	id := el.SelectAttrValue("ID", "")
+	for _, a := range rs.Assertions {
+		if a.ID == id {
+			a.Relocated = true
+		}
+	}
 }
 
 func firstAssertionIndex(root *etree.Element) int {
@@ -620,7 +660,7 @@ func firstAssertionIndex(root *etree.Element) int {
 	return len(root.Child)
 }
 
-const nEdits = 20
+const nEdits = 22
 
 // ---------- the response stream ----------
 
@@ -679,6 +719,14 @@ func runResponseStream(c *Ctx, n int, focus string) {
 			if focus == "C02" {
 				store = []*KeyPair{w.IdP2}
 			}
+		case 4:
+			if focus == "C02" || focus == "C01" {
+				store = []*KeyPair{w.IdPOld, w.IdP1} // roll-over store with one member outside its window
+			}
+		case 5:
+			if focus == "C02" {
+				store = []*KeyPair{w.IdP1, w.IdPOld}
+			}
 		}
 		now := g.now
 		if focus == "C02" && r.Intn(3) == 0 {
@@ -722,7 +770,7 @@ func runResponseStream(c *Ctx, n int, focus string) {
 		var mod func(*SignOpts)
 		if focus == "C02" {
 			switch r.Intn(6) {
-			case 0:
+			case 0, 3:
 				mod = func(o *SignOpts) { o.NoKeyInfo = true }
 			case 1:
 				mod = func(o *SignOpts) { o.Key = w.Attacker; o.EmbedCert = w.IdP1 } // trusted cert, foreign key
@@ -732,9 +780,27 @@ func runResponseStream(c *Ctx, n int, focus string) {
 		}
 		// profile faults injected before signing (the IdP signs them): rejected by Validate although signed
 		profileFault := ""
-		if r.Intn(7) == 0 {
+		if r.Intn(7) == 0 || (focus == "C03" && r.Intn(2) == 0) {
 			a := rs.Assertions[r.Intn(len(rs.Assertions))]
-			switch r.Intn(5) {
+			switch r.Intn(11) {
+			case 5:
+				a.NoSubject = true
+				profileFault = "no-subject"
+			case 6:
+				a.NoConf = true
+				profileFault = "no-subject-confirmation"
+			case 7:
+				a.NoData = true
+				profileFault = "no-subject-confirmation-data"
+			case 8:
+				a.NOA = "\x00"
+				profileFault = "no-notonorafter"
+			case 9:
+				a.Issuer = nil
+				profileFault = "no-assertion-issuer"
+			case 10:
+				a.Recipient = ""
+				profileFault = "empty-recipient"
 			case 0:
 				a.Recipient = "https://evil.example.com/acs"
 				profileFault = "recipient"
@@ -780,6 +846,12 @@ func runResponseStream(c *Ctx, n int, focus string) {
 			}
 		}
 		raw, _ := doc.WriteToBytes()
+		if !rs.Pretty {
+			if r2, ok := cdataLayout(raw, rs); ok {
+				raw = r2
+				rc.labels = append(rc.labels, "cdata-sections")
+			}
+		}
 		// --- attacker edits ---
 		nEd := 0
 		switch {
@@ -946,6 +1018,9 @@ func runOneResponse(c *Ctx, cs *CaseSet, rc *respCase, respSigOK bool, profileFa
 				if match == nil {
 					c.Violate("spec", "forgery:assertion-not-signed", fmt.Sprintf("accepted assertion %d (ID %q, NameID %v) is not field-for-field an assertion covered by a verifying trusted signature", i, a.ID, nameIDOf(a)), replay)
 					continue
+				}
+				if match.Relocated {
+					c.Violate("spec", "forgery:nested-assertion-honoured", fmt.Sprintf("assertion %q is not a direct child of the presented Response but was honoured", a.ID), replay)
 				}
 				if a.SignatureValidated && !signatureVerifies(match.SignedBy, rc.store, rc.now) {
 					c.Violate("spec", "flags:assertion-flag-overstated", fmt.Sprintf("assertion %q flagged validated but it carried no verifying signature of its own", a.ID), replay)
